@@ -1,1 +1,102 @@
-From DV Require Import Prelude.Base Model.Node.
+(* C11 — watchdog: idle sends one DWR, DWA restores ready, silence closes the connection
+   Statements copied from the proof files; each is closed by `exact`. *)
+From DV Require Prelude.Base Model.Ids Proofs.IdsP Model.Node Proofs.NodeA.
+From Coq Require String List Lia Bool Arith ZArith.
+
+Module FromNodeA.
+Import DV.Prelude.Base DV.Model.Node DV.Proofs.NodeA.
+Import Coq.Strings.String.
+Open Scope string_scope.
+Open Scope list_scope.
+Open Scope Z_scope.
+
+(* C11: the definitional case analysis of check_timers with the effective timer values named *)
+Theorem check_timers_unfold n cid c :
+  n_stopping n = false -> get_conn n cid = Some c ->
+  check_timers n cid =
+  match c_state c with
+  | SConnected =>
+      if (negb (c_recv c) && (eff_cea n c <? n_now n - c_last_read c))
+         || (c_recv c && (eff_cer n c <? n_now n - c_last_read c))
+      then close_conn n cid R_FAILED_CE else (n, [])
+  | SReadyWaitDwa =>
+      if eff_dwa n c <? n_now n - c_last_dwr c then close_conn n cid R_DWA_TIMEOUT else (n, [])
+  | SReady => if eff_idle n c <? n_now n - c_last_read c then send_dwr n cid else (n, [])
+  | _ => (n, [])
+  end.
+Proof. exact (@NodeA.check_timers_unfold n cid c). Qed.
+
+(* C11: the peer's own timer values (when set and non-zero) override the node's *)
+Theorem C11_peer_overrides n c :
+  (forall p, find_conn_peer n c = Some p ->
+     eff_idle n c = opt_or (p_idle p) (g_idle (n_cfg n)) /\
+     eff_dwa n c = opt_or (p_dwa p) (g_dwa (n_cfg n)) /\
+     eff_cea n c = opt_or (p_cea p) (g_cea (n_cfg n)) /\
+     eff_cer n c = opt_or (p_cer p) (g_cer (n_cfg n))) /\
+  (find_conn_peer n c = None ->
+     eff_idle n c = g_idle (n_cfg n) /\ eff_dwa n c = g_dwa (n_cfg n) /\
+     eff_cea n c = g_cea (n_cfg n) /\ eff_cer n c = g_cer (n_cfg n)).
+Proof. exact (@NodeA.C11_peer_overrides n c). Qed.
+
+(* C11: an idle READY connection gets exactly one DWR and becomes READY_WAITING_DWA, last_dwr = now *)
+Theorem C11_idle_sends_one n cid c :
+  n_stopping n = false -> get_conn n cid = Some c -> c_state c = SReady ->
+  eff_idle n c < n_now n - c_last_read c ->
+  exists dwr c',
+    snd (check_timers n cid) = [OQueue cid dwr] /\ o_cmd dwr = DW /\ o_req dwr = true /\
+    get_conn (fst (check_timers n cid)) cid = Some c' /\
+    c_state c' = SReadyWaitDwa /\ c_last_dwr c' = n_now n.
+Proof. exact (@NodeA.C11_idle_sends_one n cid c). Qed.
+
+(* C11: while the DWA is awaited and its timeout has not expired nothing more is sent *)
+Theorem C11_no_second_dwr n cid c :
+  get_conn n cid = Some c -> c_state c = SReadyWaitDwa ->
+  n_now n - c_last_dwr c <= eff_dwa n c ->
+  check_timers n cid = (n, []).
+Proof. exact (@NodeA.C11_no_second_dwr n cid c). Qed.
+
+(* C11: a DWA turns READY_WAITING_DWA back into READY and clears last_dwr; nothing is sent *)
+Theorem C11_dwa_restores n cid c :
+  get_conn n cid = Some c -> c_state c = SReadyWaitDwa ->
+  snd (recv_dwa n cid) = [] /\
+  exists c', get_conn (fst (recv_dwa n cid)) cid = Some c' /\ c_state c' = SReady /\ c_last_dwr c' = 0.
+Proof. exact (@NodeA.C11_dwa_restores n cid c). Qed.
+
+(* C11: no DWA within the effective DWA timeout closes the connection (DWA_TIMEOUT) *)
+Theorem C11_silence_closes n cid c :
+  n_stopping n = false -> get_conn n cid = Some c -> c_state c = SReadyWaitDwa ->
+  eff_dwa n c < n_now n - c_last_dwr c ->
+  check_timers n cid = close_conn n cid R_DWA_TIMEOUT /\
+  snd (check_timers n cid) = [OClose cid R_DWA_TIMEOUT].
+Proof. exact (@NodeA.C11_silence_closes n cid c). Qed.
+
+(* C11: a READY connection that was read from recently gets no DWR *)
+Theorem C11_no_dwr_while_busy n cid c :
+  get_conn n cid = Some c -> c_state c = SReady ->
+  n_now n - c_last_read c <= eff_idle n c ->
+  check_timers n cid = (n, []).
+Proof. exact (@NodeA.C11_no_dwr_while_busy n cid c). Qed.
+
+(* C11: a DWR arriving on a ready connection is answered with exactly one DWA 2001 *)
+Theorem C11_dwr_answered n cid c m :
+  get_conn n cid = Some c -> (c_state c = SReady \/ c_state c = SReadyWaitDwa) ->
+  m_cmd m = DW -> m_req m = true -> m_missing m = [] -> m_t m = false ->
+  snd (dispatch n cid m) = [OQueue cid (answer_of m (Some 2001) [])].
+Proof. exact (@NodeA.C11_dwr_answered n cid c m). Qed.
+
+(* C11: a second timer check at the same instant produces nothing *)
+Theorem C11_timers_idempotent n cid n1 o1 :
+  (forall c, get_conn n cid = Some c -> 0 <= eff_dwa n c) ->
+  check_timers n cid = (n1, o1) -> snd (check_timers n1 cid) = [].
+Proof. exact (@NodeA.C11_timers_idempotent n cid n1 o1). Qed.
+End FromNodeA.
+
+Print Assumptions FromNodeA.check_timers_unfold.
+Print Assumptions FromNodeA.C11_peer_overrides.
+Print Assumptions FromNodeA.C11_idle_sends_one.
+Print Assumptions FromNodeA.C11_no_second_dwr.
+Print Assumptions FromNodeA.C11_dwa_restores.
+Print Assumptions FromNodeA.C11_silence_closes.
+Print Assumptions FromNodeA.C11_no_dwr_while_busy.
+Print Assumptions FromNodeA.C11_dwr_answered.
+Print Assumptions FromNodeA.C11_timers_idempotent.
